@@ -2,7 +2,7 @@
 import CtyModel.Stdlib.Format
 import CtyModel.Stdlib.NumberSpec
 namespace CtyModel
-namespace Stdlib
+namespace StdNum
 
 theorem padWidth_none (clusters : String → List String) (v : Verb) (s : String) (h : v.hasWidth = false) :
     padWidth clusters v s = s := by
@@ -30,5 +30,5 @@ theorem formatAppend_missing (L : Lib) (v : Verb) (args : List Value) (h : args.
     apply List.getElem?_eq_none; omega
   simp [formatAppend, this]
 
-end Stdlib
+end StdNum
 end CtyModel
